@@ -44,6 +44,24 @@ func genSim(r *term.Rng, idx int) term.T {
 		if listener && k == 7 {
 			k = 23
 		}
+		// rare but important shapes
+		if r.Chance(1, 40) {
+			// an attack on every unit of the battle, lethal: both sides may be wiped at once
+			ts := []term.T{}
+			for u := 1; u <= n; u++ {
+				ts = append(ts, term.C("TId", term.I(int64(u))))
+			}
+			return term.C("SAttack", term.I(int64(r.Range(1, 9))), term.L(ts...), term.B(!listener), term.F(2000))
+		}
+		if listener && r.Chance(1, 5) {
+			// a listener that kills outright (a chain reaction between two death checks), often a unit
+			// that has something queued
+			return term.C("SSetHP", term.C("TId", term.I(int64(r.Range(1, n)))), term.F(0))
+		}
+		if listener && r.Chance(1, 8) {
+			ab := []term.T{}
+			return term.C("SInsertAbility", term.I(int64(r.Range(1, 9))), term.I(term.Pick(r, prios)), term.C("TId", term.I(int64(r.Range(1, n)))), term.L(ab...), term.Nat(r.Intn(nbody)))
+		}
 		switch {
 		case k < 7:
 			ts := []term.T{}
@@ -172,7 +190,7 @@ func genSim(r *term.Rng, idx int) term.T {
 		ults = append(ults, term.L(reqs...))
 	}
 	return term.C("mkCfg", term.L(units...), term.L(scripts...), term.L(next...), term.L(ults...),
-		lids(r.Range(0, 1)), lids(r.Range(0, 4)), lids(r.Range(0, 4)), lids(r.Range(0, 3)),
+		lids(r.Range(0, 1)), lids(r.Range(0, 4)), lids(r.Range(0, 4)), lids(r.Range(0, 4)),
 		term.I(int64(r.Range(0, 4))), term.I(int64(r.Range(0, 12))))
 }
 
